@@ -507,6 +507,51 @@ func c16Pressure(c *fw.Ctx, r *rand.Rand, idx int) {
 }
 
 // c16Hostile: random command scripts incl. malformed lines; every isready answered, clean shutdown.
+// c16Flood: an unlimited search of a finished game (no legal move) completes iterations as fast as it can
+// hand them over, so the hand-over between search, forwarder and reader runs at full speed (with a prompt and
+// with a lagging reader); isready, stop and quit must still get through.
+func c16Flood(c *fw.Ctx, r *rand.Rand, idx int) {
+	rc := &recipes[r.Intn(len(recipes))]
+	opts, _ := recipeOptions(r, rc)
+	opts.Depth = 0
+	s := newUCISession(rc, opts, 0, false, 1, false)
+	what := func() string { return fmt.Sprintf("engine %s options %v: %s", rc.name, opts, s.transcript(12)) }
+	defer func() {
+		if !s.shutdown(r.Intn(2) == 0) {
+			c.Violate("driver:shutdown", "output not closed after quit / end of input: %s\n%s", what(), stacks())
+		}
+	}()
+	for round := 0; round < 3; round++ {
+		h, ok := terminalRoot(r, r.Intn(2) == 0)
+		if !ok {
+			continue
+		}
+		s.send(positionCmd(h.Start, h.Moves, false))
+		if r.Intn(2) == 0 {
+			s.slowNs.Store(int64(20+r.Intn(200)) * 1000) // the reader takes a line every 20-220 microseconds
+		}
+		m := s.send("go infinite")
+		time.Sleep(time.Duration(20+r.Intn(150)) * time.Millisecond)
+		s.slowNs.Store(0)
+		c.Eval(1)
+		c.Count("flood_rounds", 1)
+		if _, ok := s.sync(); !ok {
+			c.Violate("driver:no-readyok", "isready unanswered while an unlimited search of a finished game is flooding iterations: %s\n%s", what(), stacks())
+			return
+		}
+		s.send("stop")
+		if _, _, ok := s.waitLine(m, isBestmove, uciWatchdog); !ok {
+			c.Violate("driver:no-bestmove", "stop not answered by a bestmove after an unlimited search of a finished game: %s\n%s", what(), stacks())
+			return
+		}
+		if _, ok := s.sync(); !ok {
+			c.Violate("driver:no-readyok", "isready unanswered after stop: %s\n%s", what(), stacks())
+			return
+		}
+	}
+	c.Distinct(s.transcript(40))
+}
+
 func c16Hostile(c *fw.Ctx, r *rand.Rand, idx int) {
 	rc := &recipes[r.Intn(len(recipes))]
 	opts, maxDepth := recipeOptions(r, rc)
@@ -526,11 +571,19 @@ func c16Hostile(c *fw.Ctx, r *rand.Rand, idx int) {
 			isready++
 		case x < 6:
 			h := gen.Playout(r, gen.Starts()[r.Intn(len(gen.StartFENs))], r.Intn(20), gen.Neutral)
+			if r.Intn(5) == 0 {
+				// a finished game (mate or stalemate on the board): an unlimited search of it completes
+				// iterations as fast as it can report them
+				if t, ok := terminalRoot(r, r.Intn(2) == 0); ok {
+					h = t
+					c.Count("hostile_moveless_positions", 1)
+				}
+			}
 			cur = ref.NewGameFrom(h.Start, h.Moves)
 			s.send(positionCmd(h.Start, h.Moves, true))
 			searching = false
 		case x < 10:
-			cmd := []string{"go depth %d", "go movetime %d", "go infinite", "go", "go wtime %d btime 50", "go depth %d movetime 30"}[r.Intn(6)]
+			cmd := []string{"go depth %d", "go movetime %d", "go infinite", "go", "go wtime %d btime 50", "go depth %d movetime 30", "go infinite"}[r.Intn(7)]
 			if strings.Contains(cmd, "%d") {
 				cmd = fmt.Sprintf(cmd, 1+r.Intn(maxDepth))
 			}
@@ -849,7 +902,7 @@ func init() {
 		Level:       "exploration",
 		Race:        true,
 		Technique:   "runtime protocol monitor under the race detector: gate evaluator parks the search so that a superseded search provably has not ended, hook-point delays widen the hand-over windows between command loop, forwarder, timers and search; hostile and malformed command scripts; real binaries driven over pipes; goroutine-dump based leak and hang diagnosis",
-		Rule:        "stale: go on P1 parked inside its k-th evaluation, then isready / stop / position P2 / ucinewgame / position P2 + go (P1, P2 have opposite sides to move): every isready answered while searching, a superseded search never answered, position+go answered exactly once with a move of P2; hostile: 8-37 random commands from {isready, position, go (6 forms), stop, ucinewgame, setoption, 54 malformed or unknown lines incl. over-long, non-UTF8, multi-byte move tokens, missing/overflowing arguments} with random pauses, then the driver must still answer position startpos / go depth 1 exactly once, then quit or end of input (also in the middle of a search): output closes; afterwards no goroutine remains inside morlock code; hook policies none / yield / random sleeps / long sleeps at hand-over points; blackbox: the four binaries (race build) driven over pipes: uciok, readyok, one legal bestmove per go, exit 0 without panic or race report; distinct = distinct session transcripts; interleaving signatures = distinct rolling hashes of hook-point order",
+		Rule:        "stale: go on P1 parked inside its k-th evaluation, then isready / stop / position P2 / ucinewgame / position P2 + go (P1, P2 have opposite sides to move): every isready answered while searching, a superseded search never answered, position+go answered exactly once with a move of P2; flood: go infinite on a finished game (mate / stalemate on the board) with a prompt or lagging reader, then isready / stop / isready; hostile: 8-37 random commands from {isready, position, go (6 forms), stop, ucinewgame, setoption, 54 malformed or unknown lines incl. over-long, non-UTF8, multi-byte move tokens, missing/overflowing arguments} with random pauses, then the driver must still answer position startpos / go depth 1 exactly once, then quit or end of input (also in the middle of a search): output closes; afterwards no goroutine remains inside morlock code; hook policies none / yield / random sleeps / long sleeps at hand-over points; blackbox: the four binaries (race build) driven over pipes: uciok, readyok, one legal bestmove per go, exit 0 without panic or race report; distinct = distinct session transcripts; interleaving signatures = distinct rolling hashes of hook-point order",
 		Assumptions: []string{"an unanswered isready is reported after a 60 s watchdog together with a goroutine dump (operations take milliseconds)", "a gate is never held across Halt: the iter.halt.enter hook releases it"},
 		Setup:       validateOracle,
 		Timeout:     minutes(15, 120),
@@ -863,7 +916,7 @@ func init() {
 			return l
 		},
 		Floors: func(string) map[string]int64 {
-			return map[string]int64{"stale_sessions": 100, "stale_parked": 150, "hostile_sessions": 150, "isready_answered": 300, "final_go_checks": 100, "quit_during_search": 20, "leak_checks": 30, "timer_overlap_scenarios": 5, "late_answer_probes": 150, "held_forwarder_probes": 40, "stalled_reader_scenarios": 10, "timer_pileup_scenarios": 8, "answered_before_supersession": 20, "blackbox_sessions": 25, "blackbox_gos": 40, "hook_points_seen": 8}
+			return map[string]int64{"stale_sessions": 100, "stale_parked": 150, "hostile_sessions": 150, "isready_answered": 300, "final_go_checks": 100, "quit_during_search": 20, "leak_checks": 30, "timer_overlap_scenarios": 5, "late_answer_probes": 150, "held_forwarder_probes": 40, "stalled_reader_scenarios": 10, "timer_pileup_scenarios": 8, "answered_before_supersession": 20, "blackbox_sessions": 25, "blackbox_gos": 40, "hook_points_seen": 8, "flood_rounds": 30}
 		},
 		Run: func(c *fw.Ctx, cs fw.Case) {
 			r := cs.Rand()
@@ -894,6 +947,9 @@ func init() {
 				defer installDriverHooks(cs.Seed, cs.Idx%4)()
 				for i := 0; i < cs.N; i++ {
 					c16Hostile(c, r, cs.Idx*1000+i)
+					if i%4 == 0 {
+						c16Flood(c, r, cs.Idx*1000+i)
+					}
 				}
 				leakCheck(c)
 			case "blackbox":
